@@ -4,7 +4,8 @@ Space (exhaustive, DESIGN 5 C17): a pool of 8 files written by rtflite itself (d
 3-page A4 table, landscape, with page header/footer (+ its own colours), with colour table, multi-section,
 1-figure, 2-figure.  All k-tuples with repetition, k <= 3 (quick: 584) / k <= 4 (thorough: 4680); plus [],
 every single input, and a missing file at every position (one and two missing) with the output path
-absent / pre-existing.
+absent / pre-existing; rewrite histories inside one process (write X to path P, assemble, rewrite P with Y,
+assemble again, assemble [P]) for all ordered pairs of pool kinds x all positions of P in 1..3-tuples.
 
 Oracle (from the property text): the output parses strictly; its page list equals the concatenation of the
 inputs' page lists compared on a normalised per-page summary taken from the reader model (blocks with texts,
@@ -227,9 +228,157 @@ def _short(x, n=120):
 # --------------------------------------------------------------------------- one case
 
 
+def check_output(names, inputs, after, V, bump, label=""):
+    """The property's main clause on one assembled file: `after` (bytes) against the inputs
+    (tuples as returned by pool_file: path, bytes, page summaries, unresolved summaries, reader errors).
+    Returns the output's page summaries."""
+    # ---- single input: unchanged
+    if len(names) == 1:
+        bump("single-input")
+        if after != inputs[0][1]:
+            fd = next((i for i, (a, b) in enumerate(zip(after, inputs[0][1])) if a != b), min(len(after), len(inputs[0][1])))
+            V("single-input-not-identical", f"{label}input {names[0]} ({len(inputs[0][1])} bytes) -> output {len(after)} bytes, first difference at byte {fd}")
+    # ---- well-formed
+    doc = parse(after)
+    if doc.errors:
+        V("output-not-well-formed-" + doc.errors[0][0], f"{label}inputs {names}: {doc.errors[:3]}")
+    for nm, inp in zip(names, inputs):
+        if inp[4]:  # an input that is itself broken is C01's business; say so rather than blame assemble_rtf
+            V("input-not-well-formed", f"pool file {nm}: {inp[4][:2]}")
+    got = page_summaries(doc)
+    got_raw = None
+    exp = [(k, j, pg) for k, inp in enumerate(inputs) for j, pg in enumerate(inp[2])]
+    if len(got) != len(exp):
+        V("page-count", f"{label}inputs {names} have {[len(i[2]) for i in inputs]} pages, output has {len(got)}")
+    # ---- page by page
+    own_hf = {"header": [inp[2][0]["header"] for inp in inputs], "footer": [inp[2][0]["footer"] for inp in inputs]}
+    for p, (k, j, want) in enumerate(exp[:len(got)]):
+        have = got[p]
+        where = f"{label}inputs {names}: output page {p + 1} = page {j + 1} of input {k + 1} ({names[k]})"
+        if j == 0 and k > 0 and not have["break"]:
+            V("input-not-on-new-page", where + " is not preceded by a page break")
+        if have["blocks"] != want["blocks"]:
+            if got_raw is None:
+                got_raw = page_summaries(doc, resolve=False)
+            path, a, b = _first_diff(have["blocks"], want["blocks"], "blocks")
+            only_resolution = got_raw[p]["blocks"] == inputs[k][3][j]["blocks"]
+            sig = "page-content-colour-or-font-resolution" if only_resolution else "page-content"
+            V(sig, where + f": differs at {path}: output {_short(a)} vs input {_short(b)}"
+              + (" (same indices, but they resolve through a different table in the output)" if only_resolution else ""))
+        if have["geom"] != want["geom"]:
+            diff = sorted(x for x in have["geom"] if have["geom"][x] != want["geom"][x])
+            klass = None
+            if diff == ["landscape"] and have["geom"]["landscape"] and not want["geom"]["landscape"] \
+                    and any(inputs[i][2][0]["geom"]["landscape"] for i in range(k)):
+                # completely explained: an earlier input set the \landscape flag and RTF has no word to clear it
+                klass = "landscape-flag-persists-into-portrait-input"
+            V(klass or ("geometry-" + ("first-page-" if j == 0 else "later-page-") + "+".join(diff)),
+              where + ": geometry in force " + ", ".join(f"{x}={have['geom'][x]}" for x in diff) + " but the input's own is "
+              + ", ".join(f"{x}={want['geom'][x]}" for x in diff), klass)
+        for what in ("header", "footer"):
+            if have[what] != want[what]:
+                klass = None
+                prev = [own_hf[what][i] for i in range(k) if own_hf[what][i] is not None]
+                if want[what] is None and prev and have[what] == prev[-1]:
+                    # completely explained: the input defines no \header/\footer, so the latest earlier one stays in force
+                    klass = "page-header-footer-persists-into-later-input"
+                V(klass or f"page-{what}-in-force", where + f": page {what} in force is {_hf_text(have[what])} but the input's own is {_hf_text(want[what])}", klass)
+    return got
+
+
+def eval_history(case: dict) -> dict:
+    """History case: write kind X to a fresh path P, assemble a tuple containing P; rewrite the SAME path with kind Y,
+    assemble the same tuple again; finally assemble [P] alone.  Every output is held against what is on disk at the
+    time of the call (the property quantifies over the input *files*, not over what an earlier call saw)."""
+    import rtflite as rtf
+
+    wd = workdir()
+    _COUNTER[0] += 1
+    p_path = os.path.join(wd, f"hist_{_COUNTER[0]}.rtf")
+    out_path = os.path.join(wd, f"hist_{_COUNTER[0]}_out.rtf")
+    shape = case["tuple"]
+    viol, cnt = [], {}
+
+    def bump(k):
+        cnt[k] = cnt.get(k, 0) + 1
+
+    outputs = []
+    try:
+        steps = [(case["x"], shape), (case["y"], shape), (case["y"], ["P"])]
+        for step, (kind, shp) in enumerate(steps):
+            src = pool_file(kind)
+            if step < 2:  # (re)write the file at P; step 3 re-reads what step 2 left on disk
+                with open(p_path, "wb") as f:
+                    f.write(src[1])
+            entry = (p_path,) + tuple(src[1:])
+            inputs = [entry if s == "P" else pool_file(s) for s in shp]
+            names = [f"P={kind}" if s == "P" else s for s in shp]
+            label = f"history step {step + 1} (path P {'written with' if step == 0 else 'rewritten with' if step == 1 else 'still holds'} {kind}" \
+                    + (f", before: {case['x']}" if step else "") + "): "
+            if os.path.exists(out_path):
+                os.remove(out_path)
+            sv = []
+
+            def V(sig, detail, klass=None, sv=sv):
+                sv.append({"klass": klass, "sig": sig, "detail": detail})
+
+            try:
+                rtf.assemble_rtf(input_files=[i[0] for i in inputs], output_file=out_path)
+            except Exception as e:
+                V(f"assemble-raised-{type(e).__name__}", f"{label}inputs {names}: {type(e).__name__}: {e}"[:300])
+                outputs.append(None)
+                viol.extend(sv)
+                continue
+            if not os.path.exists(out_path):
+                V("no-output-written", f"{label}inputs {names}: no exception and no output file")
+                outputs.append(None)
+                viol.extend(sv)
+                continue
+            with open(out_path, "rb") as f:
+                after = f.read()
+            outputs.append(after)
+            check_output(names, inputs, after, V, bump, label)
+            fresh = [v for v in sv if v["klass"] is None]
+            if step >= 1 and fresh and case["x"] != case["y"]:
+                # what would the output be if P still held X?  (diagnosis only: names the mechanism in the report)
+                stale = outputs[0] if step == 1 else pool_file(case["x"])[1]
+                if after == stale:
+                    sv[:] = [v for v in sv if v["klass"] is not None]
+                    V("rewritten-input-read-stale",
+                      f"{label}inputs {names}: the output is byte-identical to what the call produced while P held {case['x']}; "
+                      f"the current content of P ({kind}, {len(src[1])} bytes on disk) is not in it. First oracle message: {fresh[0]['detail'][:160]}")
+            viol.extend(sv)
+        bump("history-rewrite")
+        if sum(1 for s in shape if s == "P") > 1:
+            bump("history-path-listed-twice")
+        if shape[0] != "P":
+            bump("history-rewritten-path-not-first")
+        return {"viol": viol, "nt": True, "cnt": cnt}
+    finally:
+        for q in (p_path, out_path):
+            if os.path.exists(q):
+                os.remove(q)
+
+
+def history_shapes(full: bool):
+    """Tuples (length 1..3) containing the rewritten path P at every position."""
+    out = [["P"], ["P", "P"]]
+    for z in POOL:
+        out += [["P", z], [z, "P"], ["P", z, "P"]]
+    if full:
+        for z, w in itertools.product(POOL, repeat=2):
+            out += [["P", z, w], [z, "P", w], [z, w, "P"]]
+    else:  # quick: the two other inputs are of the same kind
+        for z in POOL:
+            out += [["P", z, z], [z, "P", z], [z, z, "P"]]
+    return out
+
+
 def eval_case(case: dict) -> dict:
     import rtflite as rtf
 
+    if "tuple" in case:
+        return eval_history(case)
     names = case["inputs"]
     wd = workdir()
     _COUNTER[0] += 1
@@ -297,57 +446,7 @@ def eval_case(case: dict) -> dict:
         if after is None:
             V("no-output-written", f"inputs {names}: no exception and no output file")
             return {"viol": viol, "nt": False, "cnt": cnt}
-        # ---- single input: unchanged
-        if len(names) == 1:
-            bump("single-input")
-            if after != inputs[0][1]:
-                fd = next((i for i, (a, b) in enumerate(zip(after, inputs[0][1])) if a != b), min(len(after), len(inputs[0][1])))
-                V("single-input-not-identical", f"input {names[0]} ({len(inputs[0][1])} bytes) -> output {len(after)} bytes, first difference at byte {fd}")
-        # ---- well-formed
-        doc = parse(after)
-        if doc.errors:
-            V("output-not-well-formed-" + doc.errors[0][0], f"inputs {names}: {doc.errors[:3]}")
-        for nm, inp in zip(names, inputs):
-            if inp[4]:  # an input that is itself broken is C01's business; say so rather than blame assemble_rtf
-                V("input-not-well-formed", f"pool file {nm}: {inp[4][:2]}")
-        got = page_summaries(doc)
-        got_raw = None
-        exp = [(k, j, pg) for k, inp in enumerate(inputs) for j, pg in enumerate(inp[2])]
-        if len(got) != len(exp):
-            V("page-count", f"inputs {names} have {[len(i[2]) for i in inputs]} pages, output has {len(got)}")
-        # ---- page by page
-        own_hf = {"header": [inp[2][0]["header"] for inp in inputs], "footer": [inp[2][0]["footer"] for inp in inputs]}
-        for p, (k, j, want) in enumerate(exp[:len(got)]):
-            have = got[p]
-            where = f"inputs {names}: output page {p + 1} = page {j + 1} of input {k + 1} ({names[k]})"
-            if j == 0 and k > 0 and not have["break"]:
-                V("input-not-on-new-page", where + " is not preceded by a page break")
-            if have["blocks"] != want["blocks"]:
-                if got_raw is None:
-                    got_raw = page_summaries(doc, resolve=False)
-                path, a, b = _first_diff(have["blocks"], want["blocks"], "blocks")
-                only_resolution = got_raw[p]["blocks"] == inputs[k][3][j]["blocks"]
-                sig = "page-content-colour-or-font-resolution" if only_resolution else "page-content"
-                V(sig, where + f": differs at {path}: output {_short(a)} vs input {_short(b)}"
-                  + (" (same indices, but they resolve through a different table in the output)" if only_resolution else ""))
-            if have["geom"] != want["geom"]:
-                diff = sorted(x for x in have["geom"] if have["geom"][x] != want["geom"][x])
-                klass = None
-                if diff == ["landscape"] and have["geom"]["landscape"] and not want["geom"]["landscape"] \
-                        and any(inputs[i][2][0]["geom"]["landscape"] for i in range(k)):
-                    # completely explained: an earlier input set the \landscape flag and RTF has no word to clear it
-                    klass = "landscape-flag-persists-into-portrait-input"
-                V(klass or ("geometry-" + ("first-page-" if j == 0 else "later-page-") + "+".join(diff)),
-                  where + ": geometry in force " + ", ".join(f"{x}={have['geom'][x]}" for x in diff) + " but the input's own is "
-                  + ", ".join(f"{x}={want['geom'][x]}" for x in diff), klass)
-            for what in ("header", "footer"):
-                if have[what] != want[what]:
-                    klass = None
-                    prev = [own_hf[what][i] for i in range(k) if own_hf[what][i] is not None]
-                    if want[what] is None and prev and have[what] == prev[-1]:
-                        # completely explained: the input defines no \header/\footer, so the latest earlier one stays in force
-                        klass = "page-header-footer-persists-into-later-input"
-                    V(klass or f"page-{what}-in-force", where + f": page {what} in force is {_hf_text(have[what])} but the input's own is {_hf_text(want[what])}", klass)
+        got = check_output(names, inputs, after, V, bump)
         # ---- counters
         if len(names) > 1:
             geoms = {cjson_geom(i[2][0]["geom"]) for i in inputs}
@@ -386,11 +485,16 @@ def plan(run):
     run.rule = (f"pool of 8 rtflite-written files {POOL}; every k-tuple with repetition for k = 1..{kmax} "
                 f"({sum(8 ** k for k in range(1, kmax + 1))}); [] with output absent/pre-existing; one missing file at every position of every "
                 f"length 1..{kmax} x every pool file as the other inputs x output absent/pre-existing; two missing files. "
-                "non-trivial = >= 2 inputs or an error-path case; distinct = distinct input sequence")
+                "rewrite histories in ONE process: every ordered pair (X, Y) of distinct pool kinds (56) x every tuple shape of length 1..3 holding the "
+                f"rewritten path P at every position ({'all other inputs' if not quick else 'other inputs of one kind'}, incl. P listed twice; "
+                f"{len(history_shapes(not quick))} shapes): write X to P, assemble, rewrite P with Y, assemble the same tuple, assemble [P]. "
+                "non-trivial = >= 2 inputs, an error-path case or a history; distinct = distinct input sequence / history")
     run.assumptions = [
         "the RTF reader is correct; 'in force' is the reader's stream semantics (latest colour table, latest header/footer defined before the page's "
         "first block, latest geometry words, \\landscape never reset)",
         "inputs are the 8 pool kinds written by write_rtf on a POSIX file system; a text containing the word 'fcharset' is outside the pool",
+        "histories: each worker process evaluates many cases, so process-level state of rtflite (caches) is exercised across calls; every history uses "
+        "a fresh path P, files are rewritten in place (same path, same inode) between two calls of the same process",
         "paragraph state inherited by a picture paragraph is not compared (only its alignment), empty paragraphs are compared by position only",
     ]
     try:
@@ -407,6 +511,9 @@ def plan(run):
                 for o in ("absent", "existing"):
                     err.append({"inputs": [POOL[(run.seed + a + b) % 8]] * k, "missing": [a, b], "output": o})
         run.layer("error-paths", "mc.props.c17:eval_case", err, chunk=12, total=len(err))
+        # histories inside one process: same path, different content between two calls
+        hist = [{"x": x, "y": y, "tuple": shp} for x, y in itertools.permutations(POOL, 2) for shp in history_shapes(not quick)]
+        run.layer("rewrite-histories", "mc.props.c17:eval_case", hist, chunk=25, total=len(hist))
     finally:
         for d in glob.glob(os.path.join(repo.VERIF, ".work", f"c17-p{os.getpid()}-*")):
             shutil.rmtree(d, ignore_errors=True)
@@ -415,6 +522,7 @@ def plan(run):
             run.harness_errors.append({"layer": "vacuity", "case": None, "error": f"pool file {nm} does not have {want} page(s): "
                                        + str({k: v for k, v in run.cnt.items() if k.startswith(f'pages[{nm}]')})})
     for need in ("mixed-geometry", "later-input-with-colour-table", "later-input-with-page-header", "figure-input",
-                 "same-input-twice-in-a-row", "missing-input", "empty-list", "single-input"):
+                 "same-input-twice-in-a-row", "missing-input", "empty-list", "single-input", "history-rewrite",
+                 "history-path-listed-twice", "history-rewritten-path-not-first"):
         if not run.cnt.get(need):
             run.harness_errors.append({"layer": "vacuity", "case": None, "error": f"counter {need} is zero"})
